@@ -78,7 +78,7 @@ func runC08(c *Ctx) {
 		c08Run(c, wrap.Case, "replay")
 		return
 	}
-	files, _ := filepathGlob("/verif/harness/corpus/C08/*.json")
+	files, _ := filepathGlob(verifRoot + "/harness/corpus/C08/*.json")
 	for _, f := range files {
 		var wrap struct{ Case c08Case `json:"case"` }
 		b, err := osReadFile(f)
